@@ -7,7 +7,8 @@ class Prop(WalletProp):
     theorems = ["C14_public_agree", "C14_addresses_public_only", "C14_no_private", "C14_hardened_refused", "C14_children_stay_public", "C14_flags"]
     rule = ("Watch: a full wallet (random seed, either network) exports the extended public key of a node at depth 0..5 under each of the six public "
             "version prefixes; the wallet rebuilt from that string derives non-hardened sub-paths of length 0..4 and its five addresses, SEC key, chain "
-            "code, depth, index and fingerprint are compared with the full wallet's node below the export node; hardened sub-paths must be refused. "
+            "code, depth, index and fingerprint are compared with the full wallet's node below the export node (incl. sub-paths through a node whose "
+            "public x coordinate starts with a zero byte); hardened sub-paths must be refused. "
             "WatchPriv: watch_only flag, bip85, node_extended_private_key, node_extended_keys.prv, group rows; no string in any answer may decode to "
             "a private-key encoding. Non-trivial = distinct (case, output).")
 
@@ -26,6 +27,15 @@ class Prop(WalletProp):
                     if j % 3 == 0:
                         cases.append({"kind": "WatchPriv", "w": w, "export": exp, "v": v, "sub": sub[:2], "purpose": [44, 49, 84][j % 3 if False else (j // 3) % 3]})
                     j += 1
+        # sub-paths THROUGH a publicly derivable node whose x coordinate has a leading zero byte (1 in 256): found by private derivation
+        from props.walletfam import build_wallet
+        for testnet, exp, v in ((False, [84 + H, H, H], PUBV[False][2 % len(PUBV[False])]), (True, [49 + H, 1 + H, H], PUBV[True][1 % len(PUBV[True])])):
+            w = self.rand_wspec(rng, testnet)
+            node = build_wallet(w).master.derive_path(list(exp))
+            c = next((i for i in range(3000) if node.ckd(index=i).public_key.sec()[1] == 0), None)
+            if c is not None:
+                cases.append({"kind": "Watch", "w": w, "export": exp, "v": v, "sub": [c, rng.randrange(0, H)]})
+                cases.append({"kind": "Watch", "w": w, "export": exp, "v": v, "sub": [c, 0, 1]})
         w = self.rand_wspec(rng, False)
         for sub in ([H], [0, H + 1], [2 ** 32 - 1]):
             cases.append({"kind": "Watch", "w": w, "export": [44 + H, H, H], "v": PUBV[False][0], "sub": sub})
